@@ -74,8 +74,11 @@ def check_foreign_bban_object(rec: Rec, cc, y, bban, want_text):
     inp = {"iban": want_text, "origin": "foreign-bban-object", "bban_object_country": cc}
     try:
         got = IBAN.from_bban(y, BBAN(cc, bban))
-    except SchwiftyException as e:
-        rec.fail("foreign_bban_object_rejected", "from_bban_roundtrip", inp, want_text, f"{type(e).__name__}: {e}")
+    except SchwiftyException:
+        # refusing a BBAN object that was parsed for another country is a legitimate reading (the statement only speaks of
+        # re-assembling an IBAN from its OWN country code and BBAN): tolerated
+        rec.excluded["from_bban refuses a BBAN object of another country (tolerated)"] += 1
+        rec.classes["foreign-bban-object"] += 1
         return
     except Exception as e:  # noqa: BLE001
         rec.fail(f"foreign_bban_object_raises|{type(e).__name__}", "from_bban_roundtrip", inp, want_text, f"{type(e).__name__}: {e}")
